@@ -1488,3 +1488,32 @@ Proof. unfold register. simpl. apply update_crn_off. Qed.
 Theorem register_is_update size kcols m labels f t fuel cols : select_cols kcols f = Some cols ->
   register size kcols m labels f t fuel = update size (negb (is_nil kcols)) m (batch_of labels cols) t fuel.
 Proof. intro H. unfold register. now rewrite H. Qed.
+
+(* ------------------------------------------------------------------------------------------------------------ *)
+(* the hash is symmetric in the key columns (the per-column terms are summed in wrapping arithmetic)             *)
+(* ------------------------------------------------------------------------------------------------------------ *)
+Lemma wrap64_add_l a b : wrap64 (wrap64 a + b) = wrap64 (a + b).
+Proof.
+  rewrite !wrap64_mod. f_equal.
+  replace ((a + two63) mod two64 - two63 + b + two63) with ((a + two63) mod two64 + b) by ring.
+  rewrite Z.add_mod_idemp_l by (unfold two64; lia). f_equal. ring.
+Qed.
+
+Lemma hash_fold_perm (g : cell -> Z) k k' : Permutation k k' -> forall a,
+  fold_left (fun acc c => wrap64 (acc + g c)) k (wrap64 a) = fold_left (fun acc c => wrap64 (acc + g c)) k' (wrap64 a).
+Proof.
+  induction 1 as [|c l l' HP IH|c d l|l l' l'' H1 IH1 H2 IH2]; intros a; simpl.
+  - reflexivity.
+  - rewrite wrap64_add_l. apply IH.
+  - rewrite !wrap64_add_l. f_equal. f_equal. ring.
+  - rewrite IH1. apply IH2.
+Qed.
+
+Theorem hash_raw_perm k k' s : Permutation k k' -> hash_raw k s = hash_raw k' s.
+Proof.
+  intro HP. unfold hash_raw.
+  exact (hash_fold_perm (fun c => wrap64 (col_prod (conv10 c) primes 1 + s)) k k' HP 0).
+Qed.
+
+Theorem hash_perm size k k' s : Permutation k k' -> hash size k s = hash size k' s.
+Proof. intro HP. unfold hash. now rewrite (hash_raw_perm k k' s HP). Qed.
